@@ -276,7 +276,14 @@ func (val *Valuation) evalInt(f *wframe, v ssa.Value, phi map[*ssa.Phi]ssa.Value
 	switch x := v.(type) {
 	case *ssa.Const:
 		if x.Value != nil && x.Value.Kind() == constant.Int {
-			return constant.Int64Val(x.Value)
+			if n, exact := constant.Int64Val(x.Value); exact || !val.Typed {
+				return n, exact
+			}
+			// a uint64 constant above MaxInt64: its two's-complement pattern (typed walks only)
+			if u, exact := constant.Uint64Val(x.Value); exact {
+				return int64(u), true
+			}
+			return 0, false
 		}
 	case *ssa.Convert:
 		n, ok := val.evalInt(f, x.X, phi, depth+1)
